@@ -214,6 +214,8 @@ class StmtMixin(ContractMixin):
 
     def st_Assign(self, s, st):
         v = self.ev(s.value, st)
+        if isinstance(v, VDyn) and not all(isinstance(t, ast.Name) for t in s.targets):
+            v = self.narrow(st, v)
         for t in s.targets:
             self.bind_target(st, t, v, s)
 
@@ -271,14 +273,6 @@ class StmtMixin(ContractMixin):
             if not isinstance(obj, VRef):
                 raise Unsupported("subscript assignment on a value")
             h = self.resolve(st, obj)
-            if isinstance(h, HPyDict) and not pyconst(key)[0]:
-                # concrete dict receiving a symbolic key: switch to the comprehension-shaped form
-                h = self.abstract_dict(st, h, key, v)
-                rec, st.rec = st.rec, []  # change of representation only: not an effect
-                try:
-                    self.write_h(st, obj, h)
-                finally:
-                    st.rec = rec
             if isinstance(h, (HSeq, HList, HListC)):
                 self.check_index(st, h, key, t)
             self.write(st, VRef(obj.root, obj.path + (("k", key),)), v)
@@ -289,21 +283,6 @@ class StmtMixin(ContractMixin):
         i = self.as_int(key)
         n = z3.Length(h.t) if isinstance(h, HSeq) else (z3.IntVal(len(h.items)) if isinstance(h, HList) else h.length)
         self.oblige(st, "indexerror", z3.And(i < n, i >= -n), where=self.where(node, st))
-
-    def abstract_dict(self, st, h, key, v):
-        kty = self.type_of(key)
-        b = z3.Const(f"dk!{next(self.ctx.counter)}", kty.sort())
-        dom = z3.BoolVal(False)
-        val = None
-        for k, x in h.items:
-            kt = self.lower(k, kty)
-            xv = self.resolve(st, x) if isinstance(x, VRef) else x
-            dom = t_or(dom, b == kt)
-            val = xv if val is None else self.v_ite(b == kt, xv, val)
-        if val is None:
-            vv = self.force(st, v)
-            val = self.resolve(st, vv) if isinstance(vv, VRef) else vv
-        return HDict(kty, b, dom, val, h.default, None)
 
     def st_AugAssign(self, s, st):
         t = s.target
@@ -652,6 +631,7 @@ class StmtMixin(ContractMixin):
         pre = st  # summary is applied to this state afterwards
         body_st = st.clone()
         frame = RecFrame(src.binders, len(body_st.pc))
+        frame.before = set(body_st.heap.keys())
         body_st.rec.append(frame)
         self.push_binders(body_st, src.binders)
         body_st.fresh_roots = set()
